@@ -90,6 +90,10 @@ pub enum Op {
     DropHandle(Side),
     /// the handle is dropped while its thread is unwinding from a panic
     DropHandleUnwinding(Side),
+    /// an Option-taking send called with `None` (documented to panic; the
+    /// panic must leave the channel untouched): 0 `try_send_option`, 1
+    /// `try_send_option_realtime`, 2 `send_option_timeout(1 tick)`
+    SendNone(u8),
     /// `clone_from`: a handle of a *second*, auxiliary channel is overwritten
     /// with a clone of the current handle (and becomes the thread's new top
     /// handle); the result is the auxiliary channel's count of that side
@@ -165,6 +169,7 @@ impl Op {
             Close(s) | NewHandle(s, _) | CloneFrom(s) | DropHandle(s) | DropHandleUnwinding(s) | Len(s) | IsEmpty(s) | IsFull(s) | Cap(s)
             | IsBounded(s) | SCount(s) | RCount(s) | IsClosed(s) | IsDisc(s) => Some(*s),
             IsTerm => Some(Side::R),
+            SendNone(_) => Some(Side::S),
             _ => None,
         }
     }
@@ -180,7 +185,7 @@ impl Op {
         )
     }
     pub fn needs_sync(&self) -> bool {
-        matches!(self, Op::SendT(_) | Op::SendOT(_) | Op::RecvT(_) | Op::Next)
+        matches!(self, Op::SendT(_) | Op::SendOT(_) | Op::RecvT(_) | Op::Next | Op::SendNone(2))
     }
 }
 
@@ -246,11 +251,11 @@ pub struct Env {
     /// sleeps / yields of each thread that do not let the peer run (a peer
     /// frozen for a long time)
     #[serde(default)]
-    pub stall: u8,
+    pub stall: u32,
     /// failed lock acquisitions of each thread that are retried by the lock's
     /// own loop instead of being modelled as blocking
     #[serde(default)]
-    pub lock_spin: u8,
+    pub lock_spin: u32,
 }
 
 #[derive(Clone, Debug, PartialEq, Eq, Hash, PartialOrd, Ord, Serialize, Deserialize)]
